@@ -29,6 +29,8 @@ def run(repo: Repo, rep, tier: str):
     pattern_raw_data(repo, rep, "C12")
     accessor_rules(repo, rep, "C12")
     pack_pairs(repo, rep, "C12", "R3p")
+    from . import c04
+    c04.module_highbyte_fixup(repo, rep, "C12", "R2m", require_present=False)
 
 
 # ------------------------------------------------------------------------------------- R1
@@ -309,7 +311,9 @@ def _conditional_cell(repo: Repo, note, e: ast.IfExp, cv: str) -> Optional[str]:
     try:
         const = repo.fold(const_branch, ci=note, sf=repo.module("rv.pattern"))
     except NotConst:
-        return f"substitute {norm(const_branch)} is not constant"
+        const = None
+        if any(isinstance(n, ast.Name) and n.id == cv for n in ast.walk(const_branch)):
+            return f"substitute {norm(const_branch)} is not constant"
     if not (isinstance(test, ast.Call) and isinstance(test.func, ast.Attribute) and norm(test.func.value) == cv and not test.args):
         return f"predicate {norm(test)} not a method of the cell"
     r = repo.lookup(note, test.func.attr)
@@ -319,8 +323,11 @@ def _conditional_cell(repo: Repo, note, e: ast.IfExp, cv: str) -> Optional[str]:
     fields = _packed_fields(repo, note)
     missing = [f for f in fields if f not in read]
     if missing:
-        return (f"!cells for which `{test.func.attr}()` holds are written as the constant {const!r}, but `{test.func.attr}` does not look at "
+        shown = repr(const) if const is not None else f"`{norm(const_branch)}` (one value for all such cells)"
+        return (f"!cells for which `{test.func.attr}()` holds are written as the constant {shown}, but `{test.func.attr}` does not look at "
                 f"{missing}: a cell whose only non-zero field is {missing[0]} is saved as an empty cell")
+    if const is None:
+        return f"substitute {norm(const_branch)} is not constant"
     if const != b"\0" * 8:
         return f"!substitute constant {const!r} is not the 8-byte encoding of a cell with all fields 0"
     return None
